@@ -10,7 +10,8 @@ argument, or of the target of the argument when that is a symlink): it is the fi
 path arguments `root/src/dst` of `packWalkFn` and stays fixed through the whole recursion (the
 nested walk into a dereferenced directory changes `src` and `dst` only).
 
-The part of C05 about Unpack accepting what Pack produced is in C05b/C12; here: links and bodies.
+The clause of C05 about Unpack accepting what Pack produced is not treated in this file; here:
+links and bodies.
 -/
 namespace Slug
 
@@ -103,16 +104,36 @@ theorem C05_bodies_from_fs_walk (fs : FS) (cwd : Str) (o : PackOpts) (rules : Op
   ⟨(h.1 src dst path node st hl).bodiesOK hm, (h.2.1 src dst path names st).bodiesOK hm,
    (h.2.2 src dst path node st hl).bodiesOK hm⟩
 
-/-- **C05_bodies_inside_partial.** With dereferencing off no body is fetched through a link:
-every regular entry is a regular file that `Lstat` — which does not follow a final symlink — saw
-at a path of the walk (`resolveExternalLink` and `os.Open` on a link are never reached).
-Partial: that the walk path itself lies below the root is `filepath.Walk`'s contract and not
-restated here. -/
-theorem C05_bodies_inside_partial (fs : FS) (cwd : Str) (o : PackOpts) (src : Str)
+/-- **C05_bodies_direct.** With dereferencing off no body is fetched through a link: every
+regular entry is a regular file that `Lstat` — which does not follow a final symlink — saw at a
+path of the walk (`resolveExternalLink` and `os.Open` on a link are never reached). -/
+theorem C05_bodies_direct (fs : FS) (cwd : Str) (o : PackOpts) (src : Str)
     (hd : o.dereference = false) :
     ∀ e ∈ (pack fs cwd o src).1.entries, e.isRegular = true →
       ∃ path perm mt, fs.lstat path = .ok (.file perm mt e.body) :=
   (pk_pack_emits fs cwd o src).bodiesDirect hd (by intro e he; cases he)
+
+/-- **C05_bodies_inside_partial.** With dereferencing off every body comes from inside the source
+directory: each regular entry is a regular file at an absolute clean path `path` with
+`isWithin(root, path)` — the separator-aware containment test of the code — that `Lstat` reports
+as a regular file (so its last component is not a link either).  Hypotheses: the working directory
+is absolute, and directory entries are plain names (`PackNamesOK`: no `/`, not empty, not `.` or
+`..` — true of every real filesystem, not of every value of the model type `FS`).
+Partial: lexical containment of the *walk path*; that no directory component of the walk path is a
+link is `filepath.Walk`'s contract (it does not descend into symlinks) and is not restated here. -/
+theorem C05_bodies_inside_partial (fs : FS) (cwd : Str) (o : PackOpts) (src : Str)
+    (hd : o.dereference = false) (hfs : PackNamesOK fs) (hcwd : isAbs cwd = true) :
+    ∀ e ∈ (pack fs cwd o src).1.entries, e.isRegular = true →
+      ∃ path perm mt, fs.lstat path = .ok (.file perm mt e.body) ∧ AbsClean path ∧
+        isWithin (pkRoot fs cwd src) path = true := by
+  obtain ⟨L, hL, hst⟩ := pk_pack_emits_below fs cwd o src hfs hd hcwd
+  intro e he hr
+  rw [hst] at he
+  rcases pkExtend_entries_mem he with h | ⟨k, hk⟩
+  · cases h
+  · obtain ⟨path, perm, mt, hg, hl⟩ := (hL _ hk).bodyBelow hd hr
+    exact ⟨path, perm, mt, hl, hg.1,
+      (isWithin_iff _ _ (pk_root_absClean fs cwd src hcwd) hg.1).2 hg.2⟩
 
 /-! ## non-vacuity -/
 
@@ -127,6 +148,8 @@ def c05fs : FS := [
   (["t".toList, "ext".toList, "s".toList], .file 0o600 0 "secret".toList)]
 
 def c05root : Str := "/t/src".toList
+
+example : PackNamesOK c05fs := by unfold PackNamesOK NameNS Plain; decide
 
 /-- dereferencing off: `a` and the in-tree link are written, then the out-of-tree link stops Pack
 with the illegal-slug error -/
